@@ -34,12 +34,12 @@ def quiet():
     os.dup2(devnull, 2)
 
 
-def _child(root, cfg, plan, log_path, target, delays=None):
+def _child(root, cfg, plan, log_path, target, delays=None, after=None):
     """Body of the forked child: never returns."""
     code = 3
     try:
         quiet()
-        inj = FsFault(root, log_path=log_path, plan=plan, delays=delays)
+        inj = FsFault(root, log_path=log_path, plan=plan, delays=delays, after=after)
         inj.install()
         graphs.CRASH_HOOK[0] = lambda: inj.mark("upexc")
         kw = cfg_kw(cfg)
@@ -76,9 +76,9 @@ class _Alarm(BaseException):
     pass
 
 
-def _run_inproc(root, cfg, plan, target, timeout, delays=None):
+def _run_inproc(root, cfg, plan, target, timeout, delays=None, after=None):
     """`make` inside this (pool worker) process: used when the plan does not kill the process."""
-    inj = FsFault(root, plan=plan, delays=delays)
+    inj = FsFault(root, plan=plan, delays=delays, after=after)
     graphs.CRASH_HOOK[0] = lambda: inj.mark("upexc")
     kw = cfg_kw(cfg)
     outcome, exc = "ok", ""
@@ -112,19 +112,19 @@ def _run_inproc(root, cfg, plan, target, timeout, delays=None):
             "events": [e for e in inj.events], "inproc": True}
 
 
-def run_make(root, cfg, plan, scratch, target=None, timeout=1500, delays=None):
+def run_make(root, cfg, plan, scratch, target=None, timeout=1500, delays=None, after=None):
     """One `make` under the injector.  plan: {stable_id: action}.  Runs in a forked child when the plan may
     kill the process (or when this process is no longer single-threaded), else in this process.  Returns
     dict(outcome = ok | exc | died | timeout | harness-error, exc, fired, events)."""
     target = target or cfg.get("target") or graphs.target(cfg["graph"])
     needs_fork = any(str(a).startswith("exit") for a in plan.values()) or _DIRTY[0] or os.environ.get("C04_ALWAYS_FORK")
     if not needs_fork:
-        return _run_inproc(root, cfg, plan, target, timeout, delays=delays)
+        return _run_inproc(root, cfg, plan, target, timeout, delays=delays, after=after)
     fd, log_path = tempfile.mkstemp(prefix="log_", suffix=".jsonl", dir=scratch)
     os.close(fd)
     pid = os.fork()
     if pid == 0:
-        _child(root, cfg, plan, log_path, target, delays=delays)
+        _child(root, cfg, plan, log_path, target, delays=delays, after=after)
     t0 = time.time()
     status = None
     while True:
@@ -254,9 +254,11 @@ def run_case(case, scratch_root):
                 scfg["crash_at"] = step["crash_at"]
             before = snapshot(root, shas)
             delays = {tuple(sid): float(sec) for sid, sec in step.get("delay", [])}
-            r = run_make(root, scfg, plan, scratch, target=step.get("target") or case.get("target"), delays=delays)
+            r = run_make(root, scfg, plan, scratch, target=step.get("target") or case.get("target"), delays=delays,
+                         after=[(tuple(a), tuple(b)) for a, b in step.get("after", [])])
             shas |= payload_shas(r["events"])
-            per_key, order = ab.abstract_events(r["events"], failure_propagated=(r["outcome"] == "exc" and cfg["proc"] == "single_thread"))
+            per_key, order = ab.abstract_events(r["events"], failure_propagated=(r["outcome"] == "exc" and cfg["proc"] == "single_thread"),
+                                                  crash_markers=(cfg["proc"] == "single_thread"))
             after = snapshot(root, shas)
             obs = observe(root, cfg, orc)
             recs.append({"plan": [[list(s), a] for s, a in plan.items()], "crash_at": scfg.get("crash_at"),
@@ -314,7 +316,8 @@ def clean_trace(cfg, scratch_root):
     try:
         r = run_make(root, cfg, {}, scratch)
         shas = payload_shas(r["events"])
-        per_key, order = ab.abstract_events(r["events"], failure_propagated=(r["outcome"] == "exc" and cfg["proc"] == "single_thread"))
+        per_key, order = ab.abstract_events(r["events"], failure_propagated=(r["outcome"] == "exc" and cfg["proc"] == "single_thread"),
+                                                  crash_markers=(cfg["proc"] == "single_thread"))
         after = snapshot(root, shas)
         orc = oracle_rows(cfg)
         obs = observe(root, cfg, orc)
